@@ -173,8 +173,14 @@ class SchemaGen:
             s = {"type": ["string", "null"], "enum": s["enum"] + [None]}
         return s
 
-    def s_typed_enum(self):
+    def s_typed_enum(self, no_null=True):
         self.use("typed_enum")
+        if not no_null and self.chance(0.25):
+            # the nullable form: a two-element type list with null among the enumerated values
+            self.use("typed_enum_nullable")
+            if self.chance(0.6):
+                return {"type": ["integer", "null"], "enum": self.sample([1, 2, 3, 5, 8, -1, 0], self.r.randrange(1, 4)) + [None]}
+            return {"type": ["number", "null"], "enum": self.sample([0.5, 1.5, 2.25, -4.5], self.r.randrange(1, 3)) + [None]}
         k = self.r.randrange(3)
         if k == 0:
             return {"type": "integer", "enum": self.sample([1, 2, 3, 5, 8, -1, 0, 100], self.r.randrange(1, 5))}
@@ -206,7 +212,7 @@ class SchemaGen:
     def s_scalar(self, no_null=False):
         opts = [("bool", self.s_bool, 1), ("integer", self.s_integer, 3), ("number", self.s_number, 1),
                 ("string", self.s_string, 4), ("string_enum", lambda: self.s_string_enum(no_null), 2),
-                ("typed_enum", self.s_typed_enum, 1),
+                ("typed_enum", lambda: self.s_typed_enum(no_null), 1),
                 ("untyped_enum", lambda: self.s_untyped_enum(no_null), 0.6),
                 ("not_enum", self.s_not_enum, 0.5 if self.profile != "F" else 0),  # F excludes deny lists (C02)
                 ("null", self.s_null, 0 if no_null else 0.3)]
@@ -241,8 +247,11 @@ class SchemaGen:
             return s
         if k < 0.65:
             self.use("set")
-            return {"type": "array", "items": self.pick([self.s_string, self.s_integer, self.s_string_enum])(),
-                    "uniqueItems": True}
+            st = {"type": "array", "items": self.pick([self.s_string, self.s_integer, self.s_string_enum])(),
+                  "uniqueItems": True}
+            if self.chance(0.25):
+                st["minItems"] = r.randrange(1, 3)
+            return st
         if k < 0.87:
             self.use("tuple")
             n = r.randrange(1, 4)
@@ -299,6 +308,10 @@ class SchemaGen:
         elif ap < 0.5 and props:
             s["additionalProperties"] = self.pick([self.s_string, self.s_integer, self.s_bool])()
             self.use("extra_map")
+        if self.chance(0.08) and not s.get("additionalProperties") is False:
+            # a name that is required but has no schema of its own (a dictionary with a mandated key)
+            self.use("required_without_schema")
+            s["required"] = list(s.get("required", [])) + ["mandated"]
         if self.avoid and len(props) == 1 and required and s.get("additionalProperties") in (None, True):
             # an OPEN object with exactly one (required) member is read as an externally tagged variant when it
             # is a oneOf/anyOf branch (KF-C02-2): such objects are generated closed
